@@ -26,6 +26,11 @@ def permute_params(name, p, sigma):
 
 
 def tol_for(name, dt):
+    if name in ("Krum", "TrimmedMean", "Mean", "Sum", "Constant"):
+        # selections and fixed-weight averages: a few ulps of the largest entry.  The generic tolerance
+        # would hide the choice of a different row among rows that are close to each other (workers'
+        # gradients around a common mean)
+        return {"f64": 1e-13, "f32": 2e-6}[dt]
     t = TOL[dt]
     if name == "CAGrad":
         t = max(t, 1e-5)
@@ -78,7 +83,8 @@ def run(chk):
             rnd = i // len(NAMES)
             # the first rounds are not left to chance: every aggregator sees matrices with an all-zero
             # row (and, where it takes one, a non-uniform preference / weight vector)
-            c = R.gen_case(rng, name, mmax=4 if q else 5, nmax=5, boundary=False, cat="zero_row" if rnd < 3 else rng.choice(
+            forced = "zero_row" if rnd < 3 else ("clustered" if rnd < (9 if name == "Krum" else 5) and name in ("Krum", "TrimmedMean", "Mean") else None)
+            c = R.gen_case(rng, name, mmax=(4 if q else 5) if forced != "clustered" else 6, nmax=5, boundary=False, cat=forced or rng.choice(
                 ["generic", "conflict", "zero_row", "rank_def", "bad_scale", "stationary", "generic",
                  "antiparallel", "dup_rows", "dominated", "dominated", "zero_row"]))
             if rnd < 3 and "pref" in c["params"] and len(c["J"]) >= 2:
